@@ -31,13 +31,14 @@ type behaviour struct {
 }
 
 type svc struct {
-	tree     *tree
-	name, dn string
-	parent   *svc
-	groups   [][]*svc
-	fails    []behaviour // incarnation i < len(fails) fails like this
-	stable   behaviour   // wait | done
-	lingerMs int
+	tree         *tree
+	name, dn     string
+	parent       *svc
+	groups       [][]*svc
+	fails        []behaviour // incarnation i < len(fails) fails like this
+	stable       behaviour   // wait | done
+	lingerMs     int
+	doneLingerMs int
 
 	running int32
 	incs    int32
@@ -132,6 +133,8 @@ func (s *svc) runnable() supervisor.Runnable {
 		case "done":
 			supervisor.Signal(ctx, supervisor.SignalDone)
 			s.tree.log(s.dn, inc, "done")
+			// a runnable may still be winding down for a moment after it signalled completion
+			time.Sleep(time.Duration(s.doneLingerMs) * time.Millisecond)
 			return nil
 		default:
 			if waitOrCancel(b.AfterMs) {
@@ -161,6 +164,7 @@ func genTree(rng *rand.Rand) *tree {
 		s.stable = behaviour{Kind: "wait"}
 		if rng.Intn(4) == 0 {
 			s.stable = behaviour{Kind: "done"}
+			s.doneLingerMs = []int{0, 0, 1, 5, 30}[rng.Intn(5)]
 		}
 		t.nodes = append(t.nodes, s)
 		if depth < 3 && total < 22 {
@@ -204,7 +208,7 @@ func genTree(rng *rand.Rand) *tree {
 			}
 			gs += "}"
 		}
-		d = append(d, fmt.Sprintf("%s fails=%v then=%s linger=%dms groups=%s", n.dn, fs, n.stable.Kind, n.lingerMs, gs))
+		d = append(d, fmt.Sprintf("%s fails=%v then=%s linger=%dms done-linger=%dms groups=%s", n.dn, fs, n.stable.Kind, n.lingerMs, n.doneLingerMs, gs))
 	}
 	t.desc = strings.Join(d, "; ")
 	return t
